@@ -333,7 +333,10 @@ class Gen:
             x = self.r.random()
             if x < 0.5:
                 others = [v["unique"] for cc, v in self.open.items() if v["unique"] and cc != cid]
-                f.append((7, ('b', 's'), self.r.choice(others + [b"org.freedesktop.DBus", b":1.0", b"com.example.A"])))
+                own = c["unique"] or b":1.1"
+                # (near misses of the forger's own name among them: its proper prefixes and extensions)
+                near = [own[:k] for k in range(1, len(own))] + [own + b"0", own + b".1"]
+                f.append((7, ('b', 's'), self.r.choice(others + [b"org.freedesktop.DBus", b":1.0", b"com.example.A"] + ([self.r.choice(near)] * 2 if self.r.random() < 0.5 else []))))
             if self.r.random() < 0.5:
                 for _ in range(self.r.choice([1, 1, 2])):
                     ty = wiregen.gen_type(self.r, 2)
